@@ -67,7 +67,7 @@ func checkC12(c *Ctx) {
 	c.Level = "other"
 	c.Explain = "C12 decided on the structure every playback relies on: the merge of the per-track play lists uses a key that is only the absolute time, so it must be a stable sort (file order among equal times); only messages that pass the playability test are queued, each once, and the test rejects every FF-leading message and accepts every channel message (abstract interpretation over all 256 first bytes); port selection is track's port, else port -1, else skip; every Send is preceded in the same call by Sleep(scheduled - last) and the schedule is absTime in microseconds (abstract interpretation of the play step); the track iterator calls the callback in track order then event order. Not decided: wall-clock instants, merge order across tracks at equal time."
 	c.Trusted = []string{"go/ssa", "sort.Stable keeps equal keys in input order", "time.Sleep(d) sleeps at least d", "E-abs"}
-	c.Rule("C12.1", "stable merge: the play list is sorted by a key that is only the scheduled time and is the concatenation of per-track runs, hence the sort must be sort.Stable / sort.SliceStable", 1)
+	c.Rule("C12.1", "stable merge: in the MultiPlay simulation with a feed that is not in time order (two events of track 0 at one time, an earlier event on track 1) the events are played in time order, the two same-time events in file order, and the merge leaves no order unspecified (the sort is interpreted with the code's own comparison: stable, or without possibly-equal keys)", 1)
 	c.Rule("C12.2", "only playable, each once: the append to the play list is dominated by the playability test and is not in a loop of the callback; the test rejects FF-leading messages and accepts channel messages; the send loop calls the play step once per element; the play step calls Send exactly once", 3)
 	c.Rule("C12.3", "port mapping: port of the track if mapped, else port -1 if mapped, else the event is skipped", 3)
 	c.Rule("C12.4", "never early: Send is preceded by Sleep(1us*absTime - last) in the same call and the step returns 1us*absTime", 1)
@@ -90,26 +90,8 @@ func checkC12(c *Ctx) {
 	}
 	c.Fn(FuncName(multi))
 	c.Fn(FuncName(do))
-	// ---- C12.1
-	scs := sortCalls(multi)
-	if len(scs) == 0 {
-		c.Bad("C12.1", "merge in MultiPlay", p.Pos(multi.Pos()), "the play list is never sorted: events of different tracks are not merged by time")
-	}
-	var playerT types.Type
-	for _, sc := range scs {
-		q := calleeQual(sc)
-		field, T := lessField(p, sc.Common().Args[0])
-		playerT = T
-		key := "sort of the play list in MultiPlay"
-		switch {
-		case q == "sort.Slice" || q == "sort.SliceStable":
-			c.Check(q == "sort.SliceStable", "C12.1", key, p.Pos(sc.Pos()), "stable", "sort.Slice is not stable: events of one track sharing a tick can leave out of file order")
-		case field == "":
-			c.Unk("C12.1", key, p.Pos(sc.Pos()), "Less of the sorted type is not a single-field comparison; cannot decide whether equal keys exist")
-		default:
-			c.Check(q == "sort.Stable", "C12.1", key, p.Pos(sc.Pos()), "Less compares only "+field+"; input is a concatenation of per-track runs; sort.Stable keeps file order among equal times", "Less compares only "+field+" and the input is a concatenation of per-track runs, but "+q+" is not stable: events of one track sharing a tick can leave out of file order")
-		}
-	}
+	// ---- C12.1 is decided by the merge cell of the MultiPlay simulation below (the sort is interpreted with the code's own
+	// comparison); until round 5 a rule read off which sort function is called and which field Less compares
 	// ---- C12.2 / C12.3 / C12.4: MultiPlay itself, interpreted on concrete port maps and event lists
 	multiPlaySimulation(c, multi, do)
 	// ---- C12.7 track selection and the single-port wrapper
@@ -203,7 +185,6 @@ func checkC12(c *Ctx) {
 			c.Check(false, "C12.5", "iterator does not reorder events", p.Pos(do.Pos()), "", "the iterator sorts events")
 		}
 	}
-	_ = playerT
 }
 
 // multiPlaySimulation (C12.2 / C12.3 / C12.4): MultiPlay is interpreted end to end with the track iterator replaced by a
@@ -238,18 +219,28 @@ func multiPlaySimulation(c *Ctx, multi, do *ssa.Function) {
 		want   []int // per event: index into keys of the expected port, -1 = not sent
 		rule   string
 		okText string
+		// merge: events are fed track by track (as the iterator does), so the feed is NOT in time order: events 0 and 1
+		// (track 0) share one time u, event 2 (track 1) has a strictly earlier time v < u. Expected play order: 2, 0, 1.
+		merge bool
+		// firstKeys: the same reader has already played once with THIS port map (other ports); the judged call is the
+		// second one, with keys — whatever the first call left in the reader must not decide where messages go now
+		firstKeys []int64
 	}
 	cells := []cell{
-		{"track mapped, default mapped", []int64{2, -1}, []evt{{2, false}}, []int{0}, "C12.3", "sent once on the track's own port"},
-		{"only the default (-1) mapped", []int64{-1}, []evt{{2, false}}, []int{0}, "C12.3", "sent once on the default port"},
-		{"another track mapped, no default", []int64{5}, []evt{{2, false}}, []int{-1}, "C12.3", "skipped"},
-		{"meta event, track mapped", []int64{2, -1}, []evt{{2, true}}, []int{-1}, "C12.2", "never sent"},
-		{"channel message, track mapped", []int64{2}, []evt{{2, false}}, []int{0}, "C12.2", "sent exactly once"},
-		{"two tracks, two ports", []int64{2, 0}, []evt{{2, false}, {0, false}}, []int{0, 1}, "C12.4", "each sent once on its port, in time order, each after sleeping up to its own time"},
-		{"channel, meta, channel on the default port", []int64{-1}, []evt{{2, false}, {2, true}, {0, false}}, []int{0, -1, 0}, "C12.2", "the two channel messages sent once each, the meta event skipped, sleeps measured between the sent events"},
+		{"track mapped, default mapped", []int64{2, -1}, []evt{{2, false}}, []int{0}, "C12.3", "sent once on the track's own port", false, nil},
+		{"only the default (-1) mapped", []int64{-1}, []evt{{2, false}}, []int{0}, "C12.3", "sent once on the default port", false, nil},
+		{"another track mapped, no default", []int64{5}, []evt{{2, false}}, []int{-1}, "C12.3", "skipped", false, nil},
+		{"meta event, track mapped", []int64{2, -1}, []evt{{2, true}}, []int{-1}, "C12.2", "never sent", false, nil},
+		{"channel message, track mapped", []int64{2}, []evt{{2, false}}, []int{0}, "C12.2", "sent exactly once", false, nil},
+		{"two tracks, two ports", []int64{2, 0}, []evt{{2, false}, {0, false}}, []int{0, 1}, "C12.4", "each sent once on its port, in time order, each after sleeping up to its own time", false, nil},
+		{"channel, meta, channel on the default port", []int64{-1}, []evt{{2, false}, {2, true}, {0, false}}, []int{0, -1, 0}, "C12.2", "the two channel messages sent once each, the meta event skipped, sleeps measured between the sent events", false, nil},
+		{"second playback on the same reader: first {2: X}, now only the default", []int64{-1}, []evt{{2, false}, {0, false}}, []int{0, 0}, "C12.3", "both messages on the default port of THIS call", false, []int64{2}},
+		{"second playback on the same reader: first only the default, now {0: A, 2: B}", []int64{2, 0}, []evt{{2, false}, {0, false}}, []int{0, 1}, "C12.3", "each message on the port this call maps its track to", false, []int64{-1}},
+		{"merge: two events of track 0 at one time, an earlier event on track 1", []int64{0, 1}, []evt{{0, false}, {0, false}, {1, false}}, []int{0, 0, 1}, "C12.1", "played in time order (the track-1 event first), the two same-time events of track 0 in file order; the sort is stable or has no equal keys", true, nil},
 	}
 	for _, cl := range cells {
 		ex := NewExec(p)
+		ex.SortModel = true // the merge is interpreted with the code's own comparison (abs_sort.go)
 		st := ex.NewState()
 		var ports []Val
 		for range cl.keys {
@@ -269,8 +260,17 @@ func multiPlaySimulation(c *Ctx, multi, do *ssa.Function) {
 			}
 			when := mkSym(ex.syms.Get(fmt.Sprintf("when%d", i), 64, true))
 			st.refineSym(when.T.Syms[0], 0, 1<<40)
-			if i > 0 {
-				st.Assume("<=", whens[i-1], when)
+			if cl.merge {
+				switch i {
+				case 1:
+					when = whens[0]
+				case 2:
+					st.Assume("<", when, whens[0])
+				}
+			} else {
+				for j := 0; j < i; j++ {
+					st.Assume("<=", whens[j], when) // stated pairwise: the fact base does not chain inequalities
+				}
 			}
 			te := ex.zeroOf(teT).(*StructV)
 			te.Fields[fieldIndex(te.T, "TrackNo")] = mkConst(e.track, 64, true)
@@ -283,10 +283,6 @@ func multiPlaySimulation(c *Ctx, multi, do *ssa.Function) {
 			whens = append(whens, when)
 		}
 		ex.CallHook = func(ex *Exec, st *State, fr *Frame, call ssa.CallInstruction, callee *ssa.Function, args []Val) ([]callRes, bool) {
-			switch callee.String() {
-			case "sort.Sort", "sort.Stable", "sort.Slice", "sort.SliceStable":
-				return []callRes{{st: st}}, true // the list is fed in time order: sorting is the identity (C12.1 decides the sort)
-			}
 			if callee != do || len(args) < 2 {
 				return nil, false
 			}
@@ -319,7 +315,24 @@ func multiPlaySimulation(c *Ctx, multi, do *ssa.Function) {
 				}
 			}
 		}
-		outs := ex.Call(st, multi, []Val{tp, &MapV{Const: true, Keys: cl.keys, Vals: ports, ElemT: mt.Elem()}}, nil)
+		var outs []Outcome
+		if cl.firstKeys == nil {
+			outs = ex.Call(st, multi, []Val{tp, &MapV{Const: true, Keys: cl.keys, Vals: ports, ElemT: mt.Elem()}}, nil)
+		} else {
+			var firstPorts []Val
+			for range cl.firstKeys {
+				id := ex.newObj(st, &TopV{}, nil)
+				firstPorts = append(firstPorts, &IfaceV{Dyn: types.NewPointer(outI), V: &PtrV{Obj: id}})
+			}
+			for _, o1 := range ex.Call(st, multi, []Val{tp, &MapV{Const: true, Keys: cl.firstKeys, Vals: firstPorts, ElemT: mt.Elem()}}, nil) {
+				if o1.Panic {
+					outs = append(outs, o1)
+					continue
+				}
+				o1.St.Events = nil // only the second call is judged
+				outs = append(outs, ex.Call(o1.St, multi, []Val{tp, &MapV{Const: true, Keys: cl.keys, Vals: ports, ElemT: mt.Elem()}}, nil)...)
+			}
+		}
 		key := "MultiPlay simulation: " + cl.name
 		if ex.Budget || len(outs) == 0 {
 			c.Unk(cl.rule, key, p.Pos(multi.Pos()), "abstract interpretation did not complete")
@@ -368,11 +381,19 @@ func multiPlaySimulation(c *Ctx, multi, do *ssa.Function) {
 					pendingSleep, nSleepPending = nil, 0
 				}
 			}
+			for _, e := range o.St.Events {
+				if e.Kind == "sim:unstable-sort-equal-keys" {
+					ok, why = false, e.Msg+" @ "+e.Pos+" — events of one track that share a tick can be played out of file order"
+				}
+			}
 			var wantIdx []int
 			for i, w := range cl.want {
 				if w >= 0 {
 					wantIdx = append(wantIdx, i)
 				}
+			}
+			if cl.merge {
+				wantIdx = []int{2, 0, 1}
 			}
 			if len(acts) != len(wantIdx) {
 				ok, why = false, fmt.Sprintf("%d message(s) sent, expected %d", len(acts), len(wantIdx))
